@@ -433,3 +433,111 @@ contract(F, 'SynthDef._build_controls', props=('C04',), params={'self': 'self'},
          note='groups are uninterpreted sequences (lengths, defaults, argument numbers, lags, widths >= 1 per group and '
               'position); that they partition the names entered by _args_to_controls is the filter comprehensions\' '
               'meaning (Python), not proved here')
+
+
+# ---- SynthDef._build_ugen_graph / _init_build --------------------------------------------------------------------------
+# _build_ugen_graph: the control names in force are put aside and an EMPTY list is in force while this function's
+# parameters are turned into names (so a wrapped sub-function gets controls of its own and does not see the outer
+# ones); the names are made from (func, rates, number of prepended arguments); the graph function is called ONCE with
+# the prepended arguments followed by exactly what _build_controls returns; afterwards the names put aside are in
+# force again; what the function returns is returned.
+def bug_as_list(eng, selfv, args, kwargs, st, node):
+    n = z3.Int('prepend.len')
+    st.pc.append(n >= 0)
+    return [(st, V('seq', extra={'len': n, 'prepended': args[0], 'get': (lambda e_, i, s_: V('any', z3.Function('prepended', z3.IntSort(), VV.Any)(i)))}))]
+
+
+def bug_a2c(eng, selfv, args, kwargs, st, node):
+    names = st.objs.get('self', {}).get('_control_names')
+    st.trace.append(('args-to-controls', tuple(args), names))
+    return [(st, NONE)]
+
+
+def bug_build(eng, selfv, args, kwargs, st, node):
+    names = st.objs.get('self', {}).get('_control_names')
+    st.trace.append(('build-controls', names))
+    return [(st, V('seq', extra={'len': z3.Int('arguments.len'), 'built': True,
+                                 'get': (lambda e_, i, s_: V('any', z3.Function('argument', z3.IntSort(), VV.Any)(i)))}))]
+
+
+def bug_call(eng, f, args, kwargs, st, node):
+    if f.k == 'obj' and f.oid == 'func':
+        r = V('obj', oid='graph-result')
+        st.trace.append(('graph-function-called', tuple(args), r))
+        return [(st, r)]
+    return None
+
+
+def bug_new_list(eng, items, st):
+    if items == []:
+        return V('ref', cls='NameList', oid='fresh-empty-names')
+    return None
+
+
+def bug_binop(eng, op, a, b, st, node):
+    if isinstance(op, ast.Add) and a.k == 'seq' and b.k == 'seq' and a.extra.get('prepended') is not None and b.extra.get('built'):
+        return [(st, V('seq', extra={'len': a.extra['len'] + b.extra['len'], 'prepend_then_built': (a, b),
+                                     'get': (lambda e_, i, s_: V('any', z3.Const('argument-of-the-call', VV.Any)))}))]
+    return None
+
+
+def bug_post(c):
+    t = c.trace
+    a2c = [e for e in t if e[0] == 'args-to-controls']
+    bc = [e for e in t if e[0] == 'build-controls']
+    calls = [e for e in t if e[0] == 'graph-function-called']
+    if len(a2c) != 1 or len(bc) != 1 or len(calls) != 1 or not (t.index(a2c[0]) < t.index(bc[0]) < t.index(calls[0])):
+        return z3.BoolVal(False)
+    fresh = lambda v: v is not None and v.k == 'ref' and v.oid == 'fresh-empty-names'
+    a = a2c[0][1]
+    star = calls[0][1][0] if len(calls[0][1]) == 1 else None
+    final = c.post.self.v('_control_names')
+    ok = (fresh(a2c[0][2]) and fresh(bc[0][1])                                    # an EMPTY list of its own is in force meanwhile
+          and len(a) == 3 and a[0] is c._params['func'] and a[1] is c._params['rates'] and a[2].k == 'int'
+          and star is not None and star.k == 'star' and star.extra['seq'].extra.get('prepend_then_built') is not None
+          and star.extra['seq'].extra['prepend_then_built'][0].extra['prepended'] is c._params['prepend']
+          and final.k == 'obj' and final.oid == 'self._control_names'             # the names put aside are back
+          and c.resultv is calls[0][2])
+    if not ok:
+        return z3.BoolVal(False)
+    return a[2].z == z3.Int('prepend.len')                                        # as many skipped as are prepended
+
+
+contract(F, 'SynthDef._build_ugen_graph', props=('C04',), params={'self': 'self', 'func': 'obj', 'rates': 'obj', 'prepend': 'obj'},
+         ensures=[('own-empty-name-list-meanwhile;names-from-(func,rates,#prepended);called-once-with-prepended+controls;names-restored',
+                   bug_post)],
+         modifies=[('self', '_control_names')],
+         fields={'SynthDef': {'_control_names': 'obj'}, 'NameList': {}}, class_modules={'SynthDef': F, 'NameList': F},
+         hooks={'call': bug_call, 'new_list': bug_new_list, 'binop': bug_binop},
+         policies={U + '::as_list': bug_as_list, 'SynthDef._args_to_controls': bug_a2c, 'SynthDef._build_controls': bug_build},
+         native=False,
+         note='an exception of the graph function leaves the empty list in force (the definition is discarded then: C20)')
+
+
+# _init_build: a build starts from nothing - no constants, no control defaults, slot counter 0 (the invariant
+# "counter == number of defaults" of synth_controls holds from the start)
+def ib_builtin(eng, name, args, kwargs, st, node):
+    if name in ('dict', 'set') and not args:
+        return [(st, V('obj', oid='empty-' + name))]
+    return None
+
+
+def ib_new_list(eng, items, st):
+    if items == []:
+        return V('ref', cls='NameList', oid='empty-list')
+    return None
+
+
+def ib_post(c):
+    me = c.post.self
+    ok = (me.v('_constants').k == 'obj' and me.v('_constants').oid == 'empty-dict'
+          and me.v('_constant_set').k == 'obj' and me.v('_constant_set').oid == 'empty-set'
+          and me.v('_controls').k == 'ref' and me.v('_controls').oid == 'empty-list')
+    return z3.And(z3.BoolVal(bool(ok)), me._control_index == 0)
+
+
+contract(F, 'SynthDef._init_build', props=('C04', 'C20'), params={'self': 'self'},
+         ensures=[('no-constants,no-defaults,slot-counter-0', ib_post)],
+         fields={'SynthDef': {'_constants': 'obj', '_constant_set': 'obj', '_controls': 'obj', '_control_index': 'int',
+                              '_max_local_bufs': 'obj'}, 'NameList': {}},
+         class_modules={'SynthDef': F, 'NameList': F}, hooks={'builtin_first': ib_builtin, 'new_list': ib_new_list}, native=False)
